@@ -41,6 +41,10 @@
 //! failure.  `Model/TarjanCtxShape` says which lists `Model/Tarjan.determine`
 //! and `contextLoop` were written from.
 //!
+//! `c14scc` → `Generated/C14Scc.lean`: likewise `find_compilation_order`, `tarjan`,
+//! `strongly_connect` and `State::update_lowlink` as nested guarded steps
+//! (`Model/TarjanSccShape` holds what `Model/Tarjan.lean` transcribes).
+//!
 //! Every statement of these arms must be one the translator knows: a statement
 //! that consults or updates anything else (a table of earlier reads, a flag) is
 //! an extraction failure.
@@ -52,7 +56,7 @@ use std::collections::HashMap;
 use std::path::Path;
 use syn::visit::Visit;
 
-pub const TARGETS: &[Target] = &[("c14emit", "C14Emit", c14emit as Gen), ("c14read", "C14Read", c14read as Gen), ("c14edges", "C14Edges", c14edges as Gen), ("c14ctx", "C14Ctx", c14ctx as Gen)];
+pub const TARGETS: &[Target] = &[("c14emit", "C14Emit", c14emit as Gen), ("c14read", "C14Read", c14read as Gen), ("c14edges", "C14Edges", c14edges as Gen), ("c14ctx", "C14Ctx", c14ctx as Gen), ("c14scc", "C14Scc", c14scc as Gen)];
 
 fn norm<T: ToTokens>(t: &T) -> String {
     t.to_token_stream().to_string().replace(' ', "")
@@ -996,7 +1000,7 @@ open RotoV.TarjanEdges
 
 /// `norm` without the trailing commas rustfmt puts into broken-up argument lists
 fn normc<T: ToTokens>(t: &T) -> String {
-    norm(t).replace(",)", ")")
+    norm(t).replace(",)", ")").replace(",}", "}")
 }
 
 /// does `e` test `dec.kind` for `ValueKind::<which>` — as a pattern, or through a private
@@ -1142,5 +1146,129 @@ fn c14ctx(repo: &Path) -> Result<String, String> {
     s.push_str("/-- `find_compilation_order` ends with `self.context_check()?; Ok(components.into_iter().flatten().collect())`, after `tarjan` -/\n");
     s.push_str(&format!("def checkedBeforeOrderReturned : Bool := {called}\n"));
     s.push_str("\nend RotoV.Gen.C14Ctx\n");
+    Ok(s)
+}
+
+
+// ---------------------------------------------------------------------------
+// c14scc: `find_compilation_order`, `tarjan`, `strongly_connect`, `update_lowlink` as nested steps
+
+fn scc_action(n: &str) -> Result<Option<&'static str>, String> {
+    Ok(Some(match n {
+        "letindex=state.next_index" => "takeIndex",
+        "state.next_index+=1" => "bumpIndex",
+        "state.vertices.insert(v,VertexState{index,lowlink:index})" => "insertVertex",
+        "state.stack.push(v)" => "pushV",
+        "strongly_connect(references,state,*w)" => "recurse",
+        "letnew=state.vertices[w].lowlink" => "newFromLowlink",
+        "letnew=state.vertices[w].index" => "newFromIndex",
+        "state.update_lowlink(v,new)" => "updateLowlink",
+        "letmutcomponent=Vec::new()" => "newComponent",
+        "component.push(w)" => "componentPush",
+        "break" => "breakLoop",
+        "state.components.push(component)" => "pushComponent",
+        "letcurrent=&mutself.vertices.get_mut(&v).unwrap().lowlink" => "takeLowlink",
+        "*current=(*current).min(new)" => "minAssign",
+        "letmutstate=State::<V>::new()" => "newState",
+        "strongly_connect(edges,&mutstate,*v)" => "recurseTop",
+        "state.components" => "returnComponents",
+        "returnErr(self.error_recursive_constant(dec.name.ident,dec.id))" => "errRecursive",
+        "letcomponents=tarjan(&self.references.references)" => "callTarjan",
+        "self.context_check()?" => "callContextCheck",
+        "Ok(components.into_iter().flatten().collect())" => "returnFlattened",
+        // pure lookups
+        "letv_state=&state.vertices[&v]" | "letdec=self.type_info.scope_graph.get_declaration(*name)" => return Ok(None),
+        _ => return Err(format!("order / SCC pass: statement `{n}` is not one the translator knows")),
+    }))
+}
+
+fn scc_cond(file: &syn::File, c: &str) -> Result<&'static str, String> {
+    Ok(match c {
+        "!state.vertices.contains_key(w)" => "unvisited",
+        "!state.vertices.contains_key(v)" => "unvisitedTop",
+        "state.stack.contains(w)" => "onStack",
+        "v_state.index==v_state.lowlink" => "isRoot",
+        "w==v" | "v==w" => "isV",
+        "component.len()>1" => "lenGt1",
+        _ if c.ends_with("&&refs.contains(name)") && is_kind_test(file, c, "Constant") => "constAndSelfRef",
+        _ if !c.contains("&&") && !c.contains("||") && is_kind_test(file, c, "Constant") => "isConst",
+        _ => return Err(format!("order / SCC pass: condition `{c}` is not one the translator knows")),
+    })
+}
+
+fn scc_if(file: &syn::File, i: &syn::ExprIf) -> Result<String, String> {
+    let c = scc_cond(file, &normc(&i.cond))?;
+    let mut th = vec![];
+    scc_steps(file, &i.then_branch, &mut th)?;
+    let el = match &i.else_branch {
+        None => String::new(),
+        Some((_, e)) => match &**e {
+            syn::Expr::If(i2) => scc_if(file, i2)?,
+            syn::Expr::Block(b) => {
+                let mut v = vec![];
+                scc_steps(file, &b.block, &mut v)?;
+                v.join(", ")
+            }
+            x => return Err(format!("order / SCC pass: else `{}`", normc(x))),
+        },
+    };
+    Ok(format!(".ite .{c} [{}] [{}]", th.join(", "), el))
+}
+
+fn scc_steps(file: &syn::File, b: &syn::Block, out: &mut Vec<String>) -> Result<(), String> {
+    for st in &b.stmts {
+        match st {
+            syn::Stmt::Local(l) if is_verif_cfg(&l.attrs) => {}
+            syn::Stmt::Expr(e, _) if matches!(e, syn::Expr::MethodCall(m) if is_verif_cfg(&m.attrs)) => {}
+            syn::Stmt::Expr(syn::Expr::If(i), _) => out.push(scc_if(file, i)?),
+            syn::Stmt::Expr(syn::Expr::ForLoop(f), _) => {
+                let head = format!("for {} in {}", normc(&f.pat), normc(&f.expr));
+                let kind = match head.as_str() {
+                    "for w in references.get(&v).into_iter().flatten()" => "forRefs",
+                    "for v in edges.keys()" => "forKeys",
+                    "for (name,refs) in &self.references.references" => "forEdges",
+                    "for component in &components" => "forComponents",
+                    "for name in component" => "forMembers",
+                    _ => return Err(format!("order / SCC pass: loop `{head}`")),
+                };
+                let mut inner = vec![];
+                scc_steps(file, &f.body, &mut inner)?;
+                out.push(format!(".{kind} [{}]", inner.join(", ")));
+            }
+            syn::Stmt::Expr(syn::Expr::While(w), _) => {
+                if normc(&w.cond) != "letSome(w)=state.stack.pop()" {
+                    return Err(format!("order / SCC pass: loop `while {}`", normc(&w.cond)));
+                }
+                let mut inner = vec![];
+                scc_steps(file, &w.body, &mut inner)?;
+                out.push(format!(".whilePop [{}]", inner.join(", ")));
+            }
+            other => {
+                let n = normc(other);
+                if let Some(a) = scc_action(n.trim_end_matches(';'))? {
+                    out.push(format!(".act .{a}"));
+                }
+            }
+        }
+    }
+    Ok(())
+}
+
+fn c14scc(repo: &Path) -> Result<String, String> {
+    let file = find::parse(repo, "src/typechecker/value_cycle.rs")?;
+    let mut s = String::new();
+    s.push_str("/- GENERATED by /verif/extract (target c14scc) from src/typechecker/value_cycle.rs — do not edit. -/\nimport RotoV.Model.TarjanSccShape\nnamespace RotoV.Gen.C14Scc\nopen RotoV.TarjanSccShape\n\n");
+    for (fname, imp, def) in [
+        ("find_compilation_order", None, "orderSteps"),
+        ("tarjan", None, "tarjanSteps"),
+        ("strongly_connect", None, "strongConnectSteps"),
+        ("update_lowlink", Some("State"), "updateLowlinkSteps"),
+    ] {
+        let f = find::func(&file, fname, imp)?;
+        let mut v = vec![];
+        scc_steps(&file, &f.block, &mut v)?;
+        s.push_str(&format!("/-- `{fname}`, statement by statement -/\ndef {def} : List Step := [\n  {}\n]\n\n", v.join(",\n  ")));
+    }
+    s.push_str("end RotoV.Gen.C14Scc\n");
     Ok(s)
 }
